@@ -152,6 +152,8 @@ def check_C01(ctx):
     paths += ctx.run_driver(b, 'c01_mul1', shards=4, timeout=600)
     paths += ctx.run_driver(b, 'c01_mpz', shards=8, timeout=900)
     paths += ctx.run_driver(b, 'corners_z', shards=16, extra='funs=mpz_mul:mpz_addmul', timeout=900)       # every pair of corner-alphabet operands x signs
+    # the internal multiplication kernels called directly, each against the contract its own source states (SemK1.tla)
+    for d in ('k1_mullow', 'k1_sqr', 'k1_mulmid', 'k1_mulmod'): paths += ctx.run_driver(b, d, shards=8, timeout=900)
     paths += ctx.run_driver(b, 'c01_fft', shards=min(16, max(1, len(fftlines))), extra=f'fft={ff}', timeout=1500)
     ctx.validate(paths)
     pp = ctx.run_driver(b, 'c01_mul1', shards=1, extra='pure', timeout=300) + ctx.run_driver(b, 'c01_mpz', shards=1, extra='pure', timeout=300)
@@ -183,7 +185,9 @@ def check_C02(ctx):
         r = assume_model(ctx, 'Div2exp', {'W': W, 'N': N, 'CMAX': CM, 'Variant': '"ok"'}, name=f'Div2exp-W{W}-N{N}', timeout=3000)
         ctx.model_must_hold(r, what='(limb-level cfdiv_q/tdiv_q/tdiv_r/cfdiv_r _2exp: shift, strip, rounding carry, two\'s complement remainder)')
     ctx.validate(ctx.run_driver(ctx.build('default'), 'corners_z', shards=16, extra='funs=mpz_tdiv_q:mpz_tdiv_r:mpz_fdiv_q:mpz_fdiv_r:mpz_cdiv_q:mpz_cdiv_r:mpz_mod:mpz_tdiv_qr:mpz_divexact', timeout=900))
-    trace_drivers(ctx, [('c02_tdiv', 16, 1200), ('c02_div1', 8, 600), ('c02_mpz', 16, 900)], pure_drivers=['c02_tdiv', 'c02_div1', 'c02_mpz'])
+    # the internal division kernels called directly, each against the contract its own source states (SemK2.tla)
+    trace_drivers(ctx, [('c02_tdiv', 16, 1200), ('c02_div1', 8, 600), ('c02_mpz', 16, 900), ('k2_sbdc', 8, 900), ('k2_inv', 8, 900), ('k2_bdiv', 8, 900), ('k2_div1', 8, 900), ('k2_divis', 2, 600)],
+                  pure_drivers=['c02_tdiv', 'c02_div1', 'c02_mpz', 'k2_div1'])
     return ctx.finish('model_checking',
         rule='R2: UdivPreinv = every normalised two-limb divisor and every admissible three-limb numerator at word widths 3..5 bits; SbDivQr = every normalised '
              'divisor and dividend of the stated limb counts at limb base 4/8 through the transcribed loop (special case q=B-1, add-back); DivRound = the floor/ceiling adjustments for every n,d in range; Div2exp = the _2exp family at limb level (every u of up to N limbs of W bits, every count). R3/R1: tdiv_qr/tdiv_q/sb_div_qr/divrem '
@@ -246,7 +250,17 @@ def check_C04(ctx):
     # rationals, floats, random states, strings and streams (valid and invalid input) under the same heap accounting
     for d, shards in [('c04_limbs', 8), ('c12', 4), ('c13', 4), ('c13s', 4), ('c19_hist', 4), ('c06_misc', 2), ('c06_mpz', 4), ('c17_stream', 8), ('c18_misc', 2)]:
         paths += ctx.run_driver(b, d, shards=shards, timeout=900, tier='quick')
+    # fence mode: every heap block between two inaccessible pages, alternately flush with the low or the high one: a read or write one limb
+    # outside a block the library owns becomes a crash event
+    for d, shards in [('hist', 8), ('alias', 8), ('c04_limbs', 4), ('c06_mpz', 4)]:
+        paths += ctx.run_driver(b, d, shards=shards, timeout=900, tier='quick', env={'HX_FENCE': '1'}, tag='-fence')
     ctx.validate(paths)
+    if not q:
+        # the same with the temporaries of the library on the heap as well (--enable-alloca=malloc-reentrant): TMP blocks are fenced too
+        br = ctx.build('alloca-reentrant'); fp = []
+        for d, shards in [('hist', 8), ('c02_tdiv', 8), ('c01_mul1', 4), ('c01_mpz', 4), ('c07_mpz', 8), ('c08_powm', 8), ('k2_sbdc', 4), ('k2_inv', 4), ('k2_bdiv', 4), ('c06_mpz', 4), ('c09_mpz', 4)]:
+            fp += ctx.run_driver(br, d, shards=shards, timeout=1500, tier='quick', env={'HX_FENCE': '1'}, tag='-fence-heaptmp')
+        ctx.validate(fp)
     if not q:
         # auxiliary observation channel for over-READS (invisible to the specification): the same replays on an AddressSanitizer build
         from verif import sh
@@ -310,7 +324,7 @@ def check_C08(ctx):
     ctx.model_must_hold(r, what='(case analysis of mpz_powm: zero/negative exponent, even modulus recombination, negative base)')
     b = ctx.build('default')
     ctx.validate(ctx.run_driver(b, 'alias', shards=8, extra='funs=mpz_powm:mpz_powm_ui:mpz_pow_ui:mpz_ui_pow_ui', tier='thorough', timeout=900))
-    trace_drivers(ctx, [('c08_powm', 16, 1500), ('c08_pow', 4, 600), ('c08_e1', 4, 600)], pure_drivers=['c08_pow', 'c08_e1'])
+    trace_drivers(ctx, [('c08_powm', 16, 1500), ('c08_pow', 4, 600), ('c08_e1', 4, 600), ('k1_redc', 8, 900), ('k1_inv', 4, 900), ('k1_pow', 8, 900)], pure_drivers=['c08_pow', 'c08_e1', 'k1_redc'])
     return ctx.finish('model_checking',
         rule='R2: PowmEven = every (b,e,m) in range through the transcribed case analysis at a 2-bit limb. R3/R1: mpz_powm/powm_ui for moduli odd / even with 2-adic valuation 1,63..65,128+ / '
              'powers of two / +-1 / negative / B^n-1 at sizes around the REDC_1/REDC_2/REDC_N/POWM crossovers x exponent lengths at every sliding-window boundary +-1 x bit patterns x 9 base '
@@ -531,7 +545,7 @@ def check_C19(ctx):
 CPU_VARIANTS = ['netburst', 'k8', 'k10', 'k102', 'bulldozer', 'piledriver', 'bobcat', 'core2', 'penryn', 'nehalem', 'westmere', 'sandybridge',
                 'ivybridge', 'haswell', 'haswellavx', 'broadwell', 'skylake', 'skylakeavx', 'atom']
 OPTION_VARIANTS = ['none', 'fat', 'assert', 'alloca-debug', 'alloca-reentrant']
-BATTERY = [('c14_kern', 2), ('c03_mpn', 2), ('c01_mul1', 1), ('c02_tdiv', 2), ('c02_div1', 1), ('c10_mpn', 1), ('c09_mpn', 1), ('c07_mpn', 1), ('c06_mpn', 1),
+BATTERY = [('k1_mullow', 1), ('k1_mulmid', 1), ('k1_redc', 1), ('k1_mulmod', 1), ('k2_div1', 1), ('k2_sbdc', 1), ('k2_bdiv', 1), ('c14_kern', 2), ('c03_mpn', 2), ('c01_mul1', 1), ('c02_tdiv', 2), ('c02_div1', 1), ('c10_mpn', 1), ('c09_mpn', 1), ('c07_mpn', 1), ('c06_mpn', 1),
            ('c01_mpz', 1), ('c02_mpz', 2), ('c07_mpz', 2), ('c08_powm', 2), ('hist', 2)]
 
 
@@ -606,7 +620,7 @@ def check_C14(ctx):
     return ctx.finish('translation_validation',
         rule='programs = (build variant, assembly file linked for a routine) pairs executed + the variants themselves; each variant (every x86-64 CPU directory mapping of configure.ac, '
              'pure C, fat, --enable-assert, both alloca modes) is built from the working tree, its thresholds/FFT_TAB are read by a probe and the MulDispatch / FFTParams models are checked '
-             'with them, and a battery of mpn-level and mpz-level drivers (incl. the asm-only kernels by their defining identities) is executed and validated against the same MPIR.tla; '
+             'with them, and a battery of mpn-level and mpz-level drivers (incl. the asm-only kernels by their defining identities and the internal kernels of SemK1/SemK2 by their source contracts) is executed and validated against the same MPIR.tla; '
              'a disagreement would be a rejected event. quick: default, pure C, fat and one seeded CPU directory with the mpn-level battery; thorough: all 5 option variants and all 19 CPU directories with the full battery',
         explanation='same specification for every kernel set / tuning table / build option',
         extra_cov=dict(programs=nprog, disagreements_checked=ctx.trace_stats['calls'], variants=len(variants), kernel_file_variant_pairs=len(pairs),
